@@ -48,7 +48,7 @@ REAL = ['asyncssh forward.py, listener.py, socks.py, connection/channel '
         'forwarding paths of both endpoints']
 STUB = ['event loop + clock', 'TCP/UNIX sockets and listeners', 'DNS',
         'executor', 'origin and destination applications']
-PROBES = ['duplicate_listen_while_relaying', 'socks_request_never_completed', 'connected_behind_the_grant', 'listener_closed_twice', 'duplicate_listen_request', 'dynamic_listen_ports', 'mode_remote_unix', 'mode_local', 'mode_socks', 'mode_remote', 'mode_local_unix',
+PROBES = ['destination_resolver_rejects', 'duplicate_listen_while_relaying', 'socks_request_never_completed', 'connected_behind_the_grant', 'listener_closed_twice', 'duplicate_listen_request', 'dynamic_listen_ports', 'mode_remote_unix', 'mode_local', 'mode_socks', 'mode_remote', 'mode_local_unix',
           'early_data', 'half_close', 'origin_abort', 'dest_close_first',
           'slow_consumer', 'refused_by_policy', 'ssh_cut',
           'origin_gone_during_open', 'multi_conn', 'listen_refused']
@@ -132,6 +132,14 @@ def gen_plan(rng):
         # server refuses: the address is in use)
         'late_dup': {'delay': rng.below(8)}
         if mode in ('remote', 'remote_unix') and rng.chance(25) else None,
+        # while the others are relayed, one more connection is asked for,
+        # to a destination whose name or port the resolver call rejects
+        # outright (not "unknown": it cannot even be looked up)
+        'bad_dest': {'delay': rng.below(8),
+                     'host': rng.choice(['x' * 64 + '.example', 'a..b',
+                                         'dest', 'de\0st']),
+                     'port': rng.choice([80, 80, 70000, 4294967295])}
+        if rng.chance(15) else None,
     }
 
 
@@ -643,6 +651,24 @@ def run_plan(plan, sched_seed=None, sched_replay=None):
                     stuck.transport.write_eof()
             except OSError:
                 res['stuck'] = None
+
+        if plan.get('bad_dest'):
+            async def bad_dest():
+                bd = plan['bad_dest']
+
+                for _ in range(bd['delay']):
+                    await sim.pause('bad-dest')
+
+                sim.probes['destination_resolver_rejects'] += 1
+
+                try:
+                    _r, w = await conn.open_connection(bd['host'], bd['port'])
+                    w.close()
+                    res['bad_dest'] = 'opened'
+                except (asyncssh.Error, OSError) as exc:
+                    res['bad_dest'] = exc
+
+            sim.track('bad-dest', bad_dest())
 
         if plan.get('late_dup') and listeners.get(0) is not None and \
                 not plan.get('dyn_ports'):
